@@ -41,3 +41,41 @@ void harness_split(void)
 	CHECK(parts == whole, "feeding in two pieces equals feeding whole");
 	if (len == MAXLEN && cut > 0 && cut < len) WITNESS("full length, proper split");
 }
+
+/* an empty piece given as (NULL, 0) leaves every state unchanged (piecewise feeding with empty pieces) */
+void harness_null(void)
+{
+	INPUT(u16, c0);
+	INPUT_ARRAY(u8, data, 2);
+	uint16_t c = c0, d = c0;
+	lha_crc16_buf(&c, (uint8_t *) 0, 0);
+	CHECK(c == c0, "an empty piece (NULL, 0) leaves the state unchanged");
+	lha_crc16_buf(&d, data, 1);
+	lha_crc16_buf(&d, (uint8_t *) 0, 0);
+	lha_crc16_buf(&d, data + 1, 1);
+	CHECK(d == ref_crc16(c0, data, 2), "head | empty | tail equals the whole");
+	WITNESS("null piece");
+}
+
+/* Length handling beyond 16 bits: one call over BIG bytes equals two calls (BIG - CUTB, CUTB bytes) and the bitwise
+ * reference of a short tail - on a concrete data pattern and start value, so that CBMC's symbolic execution
+ * folds every step (this is a concrete path through the real routine, not a quantified claim; it exists because
+ * the per-call length is a size_t and the quantified harnesses only reach 8 bytes). */
+#ifndef BIG
+#define BIG 65537
+#endif
+#ifndef CUTB
+#define CUTB 537
+#endif
+static uint8_t bigbuf[BIG];
+void harness_big(void)
+{
+	uint16_t whole = 0x1234, parts = 0x1234;
+	unsigned i;
+	for (i = 0; i < BIG; ++i) bigbuf[i] = (uint8_t) (i * 7 + 3);
+	lha_crc16_buf(&whole, bigbuf, BIG);
+	lha_crc16_buf(&parts, bigbuf, BIG - CUTB);
+	lha_crc16_buf(&parts, bigbuf + (BIG - CUTB), CUTB);
+	CHECK(whole == parts, "one call over more than 65536 bytes equals two shorter calls");
+	WITNESS("big");
+}
